@@ -375,7 +375,13 @@ namespace c11
           if(!vf::read_file(mesh_dir() + cname, ctxt)) throw vf::Discard{"cannot read " + cname};
           d.set("companion", cname); parse_texts<M>({ctxt, txt}, x);
         }
-        else parse_text<M>(txt, x);
+        else
+        {
+          // scalexa_gendie_simple.xml links its parts to a chart 'surface' that no shipped file defines (external CGAL surface):
+          // a shipped file that needs a companion which is not there cannot serve as a source (second alarm of the thorough tier)
+          try { parse_text<M>(txt, x); }
+          catch(const MeshNodeLinkerError& e) { if(std::string(e.what()).find("not found for meshpart") != std::string::npos) throw vf::Discard{"shipped file needs a chart file that is not shipped: " + f->name}; throw; }
+        }
         int ref = (src == 2 && f->size < 6000 && !o.small) ? t.pick({3, 1}) : 0; d.set("refine", ref);
         for(int r = 0; r < ref; ++r) { auto fine = x.node->refine_unique(AdaptMode::chart); x.node = std::move(fine); c.label("refined"); }
       }
